@@ -6,4 +6,10 @@ cd "$(dirname "$0")"
 mkdir -p .build evidence replays
 cp /repo/go.sum mc/go.sum 2>/dev/null || true
 (cd mc && go build -tags verif -o ../.build/mc ./cmd/mc) || { echo "setup: harness build failed"; exit 1; }
+# instrumenter + instrumented harness (C04/C05/C20): warms the cache for the overlay build as well
+(cd instr && go build -o ../.build/instr .) || { echo "setup: instrumenter build failed"; exit 1; }
+OV=$(mktemp -d /tmp/verif-overlay.XXXXXX)
+.build/instr -repo /repo -shim "$PWD/shim/vsched" -out "$OV" -mode full >/dev/null && \
+  (cd mc && go build -tags verif,verifinst -overlay "$OV/overlay.json" -o ../.build/mc-inst ./cmd/mc) || echo "setup: instrumented build failed (checks will retry/degrade)"
+python3 -c "import shutil,sys; shutil.rmtree(sys.argv[1], ignore_errors=True)" "$OV"
 echo "setup ok"
